@@ -302,7 +302,7 @@ def thread_stress(ctx, rounds):
 
 
 def run(ctx):
-    n = 240 if ctx.tier == "quick" else 1200
+    n = 240 if ctx.tier == "quick" else 12000
     core.WARM_P = 0.0
     if ctx.replay:
         ctx.inconc("C18 replays are re-generated from the seed; re-run the tier with the recorded seed")
@@ -312,4 +312,4 @@ def run(ctx):
             concurrent_async(ctx, i)
         else:
             history(ctx, i)
-    thread_stress(ctx, 40 if ctx.tier == "quick" else 200)
+    thread_stress(ctx, 40 if ctx.tier == "quick" else 800)
